@@ -472,6 +472,9 @@ func (w *Walker) evalBool(v ssa.Value, ps *pstate) Tri {
 	if tv, ok := ps.vals[v]; ok {
 		return tv
 	}
+	if isNewFlag(v) {
+		return F // an option added later, at its default
+	}
 	switch x := v.(type) {
 	case *ssa.Parameter:
 		// a boolean parameter of an inlined helper: the argument, evaluated in the caller's context
